@@ -322,20 +322,24 @@ impl Utf16LeStandIn {
     pub fn decode<'a>(&self, bytes: &'a [u8]) -> (r: (Cow<'a, str>, Encoding, bool))
         ensures cow_chars(r.0) == (if has_bom(bytes@) { dec_sniffed(bytes@) } else { dec16(bytes@) }),
     { unimplemented!() }
+    // TRUSTED: A-enc -- encoding_rs: "Decode complete input to Cow<'a, str> without BOM handling" (only needed so that the body of the
+    // external_body wide_str type-checks)
+    #[verifier::external_body]
+    pub fn decode_without_bom_handling<'a>(&self, bytes: &'a [u8]) -> (r: (Cow<'a, str>, bool))
+        ensures cow_chars(r.0) == dec16(bytes@),
+    { unimplemented!() }
 }
 
 //@@ include common/bytes.rs
 
-// TRUSTED: proved in unit xlsbrec (C03,C19.wide_str_err_iff, wide_str_err_shape, wide_str_len, wide_str_text).  Its fifth clause
-// (C19.wide_str_text_leading_bom: the same text when the string starts with a byte-order-mark look-alike) is a REGISTERED FINDING there
-// and is therefore NOT assumed here: strings with such a start are outside the functional clauses of this unit (`ws_clean`).
+// TRUSTED: proved in unit xlsbrec (C03,C19.wide_str_err_iff, wide_str_err_shape, wide_str_len, wide_str_text)
 //@@ fn src/xlsb/mod.rs wide_str external_body ret=r
 //@@ sig
     ensures
         r is Err <==> (buf@.len() < 4 || buf@.len() < 4 + 2 * le32(buf@)),
         r is Err ==> r->Err_0 is WideStr && *final(str_len) == *old(str_len),
         r is Ok ==> *final(str_len) == 4 + 2 * le32(buf@),
-        r is Ok && !has_bom(buf@.subrange(4, 4 + 2 * le32(buf@))) ==> cow_chars(r->Ok_0) == dec16(buf@.subrange(4, 4 + 2 * le32(buf@))),
+        r is Ok ==> cow_chars(r->Ok_0) == dec16(buf@.subrange(4, 4 + 2 * le32(buf@))),
 //@@ end
 
 //@@ item src/lib.rs enum SheetType
@@ -440,8 +444,9 @@ fn verif_xl_path(target: &String) -> (r: String)
 pub open spec fn ws_ok(p: Seq<u8>, off: int) -> bool { off >= 0 && p.len() >= off + 4 && p.len() >= off + 4 + 2 * le32(p.subrange(off, off + 4)) }
 pub open spec fn ws_end(p: Seq<u8>, off: int) -> int { off + 4 + 2 * le32(p.subrange(off, off + 4)) }
 pub open spec fn ws_text(p: Seq<u8>, off: int) -> Seq<char> { dec16(p.subrange(off + 4, ws_end(p, off))) }
-/// the characters do not start with a byte-order-mark look-alike (such strings are mis-decoded by wide_str / UTF_16LE.decode: finding
-/// C19.wide_str_text_leading_bom of unit xlsbrec; they are outside the functional clauses of this unit)
+/// the characters do not start with a byte-order-mark look-alike.  Only used for the relationship id of BrtBundleSh, which read_workbook
+/// decodes itself with the BOM-sniffing `UTF_16LE.decode` before looking it up (relationship ids are XML ids -- "rId1" -- and never start
+/// so); the strings read by wide_str (sheet names, defined names, shared strings, number formats) carry no such condition
 pub open spec fn ws_clean(p: Seq<u8>, off: int) -> bool { !has_bom(p.subrange(off + 4, ws_end(p, off))) }
 
 /// a sheet as the workbook declares it
@@ -466,7 +471,7 @@ pub open spec fn folder_type(path: Seq<char>) -> Option<SheetType> {
 /// relationship: outside the property's domain -- C06 only)
 pub open spec fn bundle_wf(p: Seq<u8>, rels: Map<Vec<u8>, String>) -> bool {
     p.len() >= 12 && le32(p.subrange(8, 12)) != 0xFFFF_FFFF && ws_ok(p, 8) && ws_ok(p, ws_end(p, 8))
-    && ws_clean(p, 8) && ws_clean(p, ws_end(p, 8))
+    && ws_clean(p, 8)
     && rel_lookup(rels, vstd::utf8::encode_utf8(ws_text(p, 8))) is Some
 }
 /// the sheet a well-formed BrtBundleSh declares; None: unknown hsState or part folder (the reader must reject)
@@ -588,7 +593,6 @@ proof fn lemma_bundle_arm(pl: Seq<u8>, rl32: int, relid_bytes: Seq<u8>, hs: int,
             &&& name_sub.len() >= 4 + 2 * le32(name_sub)
             &&& ws_text(pl, ws_end(pl, 8)) == dec16(name_sub.subrange(4, 4 + 2 * le32(name_sub)))
             &&& ws_clean(pl, 8) == !has_bom(relid_bytes)
-            &&& ws_clean(pl, ws_end(pl, 8)) == !has_bom(name_sub.subrange(4, 4 + 2 * le32(name_sub)))
         },
 {
     if pl.len() >= 12 && ws_ok(pl, 8) && ws_ok(pl, ws_end(pl, 8)) {
@@ -610,7 +614,6 @@ proof fn lemma_name_arm(pl: Seq<u8>, b: Seq<u8>, name_sub: Seq<u8>, str_len: int
         name_wf(pl) ==> {
             &&& name_sub.len() >= 4 + 2 * le32(name_sub)
             &&& ws_text(pl, 9) == dec16(name_sub.subrange(4, 4 + 2 * le32(name_sub)))
-            &&& ws_clean(pl, 9) == !has_bom(name_sub.subrange(4, 4 + 2 * le32(name_sub)))
             &&& rgce == name_rgce(pl)
         },
 {
@@ -767,7 +770,7 @@ pub open spec fn xti_names(p: Seq<u8>, shn: Seq<Seq<char>>) -> Seq<Seq<char>> {
 }
 /// BrtName ([MS-XLSB] 2.4.711): flags u32 @0, chKey u8 @4, itab u32 @5, name XLWideString @9, then the formula: cce u32, rgce[cce]
 pub open spec fn name_wf(p: Seq<u8>) -> bool {
-    ws_ok(p, 9) && ws_clean(p, 9) && p.len() >= ws_end(p, 9) + 4 && p.len() >= ws_end(p, 9) + 4 + le32(p.subrange(ws_end(p, 9), ws_end(p, 9) + 4))
+    ws_ok(p, 9) && p.len() >= ws_end(p, 9) + 4 && p.len() >= ws_end(p, 9) + 4 + le32(p.subrange(ws_end(p, 9), ws_end(p, 9) + 4))
 }
 pub open spec fn name_rgce(p: Seq<u8>) -> Seq<u8> {
     p.subrange(ws_end(p, 9) + 4, ws_end(p, 9) + 4 + le32(p.subrange(ws_end(p, 9), ws_end(p, 9) + 4)))
@@ -862,7 +865,7 @@ pub open spec fn sst_items(s: Seq<u8>, n: nat, acc: Seq<Seq<char>>) -> Sst decre
     else {
         match first_of(s, 0x0013, sst_bounds()) {
             First::Found { at } =>
-                if !ws_ok(rec_payload(at), 1) || !ws_clean(rec_payload(at), 1) { Sst::Malformed }
+                if !ws_ok(rec_payload(at), 1) { Sst::Malformed }
                 else { sst_items(rec_rest(at), (n - 1) as nat, acc.push(ws_text(rec_payload(at), 1))) },
             First::Truncated => Sst::Truncated,
             First::Blocked => Sst::Blocked,
@@ -875,7 +878,7 @@ proof fn lemma_sst_items_step(s: Seq<u8>, n: nat, acc: Seq<Seq<char>>)
         else {
             match first_of(s, 0x0013, sst_bounds()) {
                 First::Found { at } =>
-                    if !ws_ok(rec_payload(at), 1) || !ws_clean(rec_payload(at), 1) { Sst::Malformed }
+                    if !ws_ok(rec_payload(at), 1) { Sst::Malformed }
                     else { sst_items(rec_rest(at), (n - 1) as nat, acc.push(ws_text(rec_payload(at), 1))) },
                 First::Truncated => Sst::Truncated,
                 First::Blocked => Sst::Blocked,
@@ -971,7 +974,7 @@ pub open spec fn styles(s: Seq<u8>, st: StSt) -> Styles decreases s.len() {
                 } else { styles(rec_rest(s), st) },
             StMode::Fmts { left } =>
                 if rec_typ(s) == 0x002C {
-                    if p.len() < 2 || !ws_ok(p, 2) || !ws_clean(p, 2) || !fmt_id_ok(le16(p)) { Styles::Malformed }
+                    if p.len() < 2 || !ws_ok(p, 2) || !fmt_id_ok(le16(p)) { Styles::Malformed }
                     else {
                         styles(rec_rest(s), StSt { custom: st.custom.insert(le16(p) as u16, custom_class(ws_text(p, 2))),
                             mode: if left == 1 { StMode::Top } else { StMode::Fmts { left: (left - 1) as nat } }, ..st })
@@ -1002,7 +1005,7 @@ proof fn lemma_styles_step(s: Seq<u8>, st: StSt)
                     } else { styles(rec_rest(s), st) },
                 StMode::Fmts { left } =>
                     if rec_typ(s) == 0x002C {
-                        if p.len() < 2 || !ws_ok(p, 2) || !ws_clean(p, 2) || !fmt_id_ok(le16(p)) { Styles::Malformed }
+                        if p.len() < 2 || !ws_ok(p, 2) || !fmt_id_ok(le16(p)) { Styles::Malformed }
                         else {
                             styles(rec_rest(s), StSt { custom: st.custom.insert(le16(p) as u16, custom_class(ws_text(p, 2))),
                                 mode: if left == 1 { StMode::Top } else { StMode::Fmts { left: (left - 1) as nat } }, ..st })
@@ -1245,7 +1248,7 @@ pub open spec fn strs(v: Seq<String>) -> Seq<Seq<char>> { v.map_values(|s: Strin
                         proof {
                             axiom_cow_str();
                             let p = rec_payload(f->at);
-                            if f is Found && p.len() >= 2 && ws_ok(p, 2) && ws_clean(p, 2) {
+                            if f is Found && p.len() >= 2 && ws_ok(p, 2) {
                                 lemma_ws_buf(buf@, p, 2);
                                 assert(buf@.subrange(0, p.len() as int)[0] == buf@[0] && buf@.subrange(0, p.len() as int)[1] == buf@[1]);
                                 // BrtFmt: the format id and its format string
